@@ -116,16 +116,21 @@ template <typename Tag, typename Img> std::string op_skips(std::string const& pa
     r += " | sk " + attempt([&] {
         reader_t rd = gil::make_scanline_reader(path.c_str(), Tag());
         auto it = rd.begin(), end = rd.end(); std::string out;
-        for (size_t i = 0; i < pat.size();) {
+        long pos = 0, height = (long)rd._info._height; if (height < 0) height = -height; bool cmp_ok = true;
+        // begin / end comparisons after every step: it == end() exactly at position height, it == begin() exactly at position 0
+        auto cmp = [&] { if ((it == end) != (pos == height) || (it != end) != (pos != height) || (it == rd.begin()) != (pos == 0)) cmp_ok = false; };
+        cmp();
+        for (size_t i = 0; i < pat.size(); cmp()) {
             if (pat[i] == 's') { size_t j = i; while (j < pat.size() && pat[j] == 's') ++j;
                 if (j - i > 1) std::advance(it, (long)(j - i)); else ++it;
-                i = j; continue; }
+                pos += (long)(j - i); i = j; continue; }
             unsigned char const* b = *it;
             for (int rep = 0; rep < (pat[i] == 'D' ? 2 : 1); ++rep) {       // D: the same position dereferenced twice, both rows reported
                 if (rep) b = *it;
                 bytes row; scan<Tag>::row(rd, b, nch, row); out += " " + hex(row); }
-            ++it; ++i; }
-        return std::string(it == end ? "1" : "0") + out; });
+            ++it; ++i; ++pos; }
+        cmp();
+        return std::string(!cmp_ok ? "cmp-bad" : it == end ? "1" : "0") + out; });
     return r; }
 
 struct any_show { template <typename I> std::string operator()(I const& img) const { return show(img); } };
